@@ -42,6 +42,10 @@ type c05Case struct {
 	// THIS case as its argument: "" = the same subscription (as RegisterUE does), "other" = another subscriber's
 	// (K', OPc'), "other-op" = (K', OP' only), "none" = nil. The argument decides.
 	Stored   string `json:"stored_subscription,omitempty"`
+	// Literal: the context is written as a struct literal (&tglib.RanUeContext{Supi: ..., CipheringAlg: ..., IntegrityAlg: ...})
+	// instead of coming from NewRanUeContext - the type is exported with exported fields, and the derivation needs
+	// nothing else of it
+	Literal bool `json:"literal_context,omitempty"`
 	StoredK  []byte `json:"stored_k,omitempty"`
 	StoredOP []byte `json:"stored_op,omitempty"`
 }
@@ -90,6 +94,7 @@ func genC05(t *rapid.T) c05Case {
 	}
 	c.MSIN = genDigits(t, n, "msin")
 	c.Label = rapid.SampledFrom([]string{"imsi-", "imsi-", "imsi-", "supi-"}).Draw(t, "supi_label")
+	c.Literal = rapid.IntRange(0, 3).Draw(t, "literal_context") == 2
 	c.Stored = rapid.SampledFrom([]string{"", "", "", "other", "other-op", "none"}).Draw(t, "stored")
 	if c.Stored == "other" || c.Stored == "other-op" {
 		c.StoredK, c.StoredOP = gen128(t, "stored_k"), gen128(t, "stored_op")
@@ -127,6 +132,9 @@ func c05Run(c c05Case, opcHex, opHex string, snn string) c05Out {
 	}
 	supi := label + c.MCC + c.MNC + c.MSIN
 	ue := tglib.NewRanUeContext(supi, 1, c.EncAlg, c.IntAlg)
+	if c.Literal {
+		ue = &tglib.RanUeContext{Supi: supi, RanUeNgapId: 1, CipheringAlg: c.EncAlg, IntegrityAlg: c.IntAlg}
+	}
 	arg := tglib.GetAuthSubscription(enc(c.K), opcHex, opHex)
 	switch c.Stored {
 	case "other":
@@ -149,7 +157,7 @@ func c05Run(c c05Case, opcHex, opHex string, snn string) c05Out {
 func c05Oracle(c c05Case) ev.Verdict {
 	v := ev.Verdict{NT: true}
 	v.Classes = []string{c.Mode, fmt.Sprintf("mnc%d", len(c.MNC)), fmt.Sprintf("alg enc=%d int=%d", c.EncAlg, c.IntAlg),
-		fmt.Sprintf("supi-digits=%d", 3+len(c.MNC)+len(c.MSIN)), "label:" + c.Label, "stored-subscription:" + c.Stored}
+		fmt.Sprintf("supi-digits=%d", 3+len(c.MNC)+len(c.MSIN)), "label:" + c.Label, "stored-subscription:" + c.Stored, fmt.Sprintf("literal-context:%v", c.Literal)}
 	if len(c.K) != 16 || len(c.OP) != 16 || len(c.RAND) != 16 || len(c.AUTN) != 16 || len(c.MCC) != 3 || (len(c.MNC) != 2 && len(c.MNC) != 3) ||
 		len(c.MSIN) > 15-3-len(c.MNC) || c.EncAlg > 3 || c.IntAlg > 3 {
 		v.Skip = true // would make the library call fatal.Fatalf / is outside the configuration domain
